@@ -17,13 +17,14 @@ var Spec = &gen.Spec{
 	Module: "C05",
 	Runs: func(c *core.Ctx) []gen.RunCfg {
 		return []gen.RunCfg{
-			{Name: "small-families(unary,conversions,logical,conditional,compound,in/instanceof,extremes,representations,default-value-protocol)", Cfg: cfg(c, "small", 0)},
+			{Name: "small-families(unary,conversions,logical,conditional,compound,in/instanceof,extremes,representations,default-value-protocol,update-operators)", Cfg: cfg(c, "small", 0)},
 			{Name: "binary-operators-all-pairs", Cfg: cfg(c, "bin", 0)},
 		}
 	},
 	Assume: []string{
 		"value set: 51 numbers, 39 strings, 4 other primitives, 8 scripted conversion objects; all ordered pairs under all 21 binary operators",
 		"[[DefaultValue]] protocol family: valueOf/toString as own or inherited, data or accessor properties of an ordinary object or a Date, the first method reassigning/redefining/deleting its sibling while it runs; getters and methods have no other effects",
+		"update operators (++ -- postfix and prefix): every value of the set as the old value of a variable, a named property, an array element and a property of the global object; result and stored value observed separately; the reference itself has no side effects",
 		"function-valued operands only where the result does not depend on implementation-defined function source text",
 	},
 }
